@@ -12,6 +12,7 @@ package main
 import (
 	"fmt"
 	"hash/crc64"
+	"math"
 	"math/big"
 	"math/rand"
 	"os"
@@ -129,7 +130,10 @@ func repMatches(filter, repID string) bool {
 
 // firstInCycle: the smallest m with S(m) >= c*cycle*ts, where c is the cycle in which segment n starts.
 func firstInCycle(S func(int64) int64, ts, cycle, n int64) int64 {
-	lo := (S(n) / (cycle * ts)) * cycle * ts
+	lo := int64(0)
+	if cycle <= math.MaxInt64/ts { // otherwise the first cycle never ends
+		lo = (S(n) / (cycle * ts)) * cycle * ts
+	}
 	m := n
 	for m > 0 && S(m-1) >= lo {
 		m--
@@ -394,6 +398,9 @@ func domainOf(ref *lib.TLRep, cfg lib.TLCfg, codes []codeSpec) string {
 		return "snr"
 	}
 	for _, cs := range codes {
+		if cs.Cycle > math.MaxInt64/ref.Timescale {
+			return "wrap-cycle"
+		}
 		if cs.Cycle*ref.Timescale < ref.Segs[0].End {
 			return "short-cycle"
 		}
@@ -569,6 +576,15 @@ func (h *harness) statusSweep(assets []*lib.TLAsset) {
 							h.statusRequest(a, r, num, codes, n, 3)
 						}
 					}
+				}
+			}
+		}
+		// findings stream: a cycle whose length in ticks wraps the 64-bit int (2^60 s * 90000 = 0 mod 2^64)
+		if a.Path == "testpic_2s" {
+			for _, cycle := range []int64{1 << 60, 1<<60 + 1, 102481911520608} {
+				codes := []codeSpec{{Cycle: cycle, Rsq: 38, Code: 404}}
+				for n := int64(36); n <= 40; n++ {
+					h.statusRequest(a, ref, lib.TLCfg{Snr: -1, Tsbd: -1, Mode: "number"}, codes, n, 1)
 				}
 			}
 		}
